@@ -21,6 +21,9 @@ let toks line = Stdlib.List.filter (fun s -> s <> "") (String.split_on_char ' ' 
 
 let rec nat_to_int = function Datatypes.O -> 0 | Datatypes.S n -> 1 + nat_to_int n
 
+(* CHK_PASSES=1: also print one line per passing verdict (used by tools/rmstats.py to attribute verdicts to operations) *)
+let show_passes = (try Sys.getenv "CHK_PASSES" <> "" with Not_found -> false)
+
 let () =
   let cur_id = ref "" and cur_cfg = ref None and steps = ref [] in
   let op = ref None and res = ref [] and obs = ref None and aux = ref None in
@@ -40,7 +43,8 @@ let () =
            let name = Codes_tbl.tag_name tag in
            let (p, f) = try Hashtbl.find tbl name with Not_found -> (0, 0) in
            Hashtbl.replace tbl name (if ok then (p + 1, f) else (p, f + 1));
-           if not ok then Printf.printf "F %s %d %s\n" !cur_id (nat_to_int k) name) vs;
+           if not ok then Printf.printf "F %s %d %s\n" !cur_id (nat_to_int k) name
+           else if show_passes then Printf.printf "P %s %d %s\n" !cur_id (nat_to_int k) name) vs;
        Printf.printf "K %s" !cur_id;
        Hashtbl.iter (fun name (p, f) -> Printf.printf " %s:%d:%d" name p f) tbl;
        print_newline ()
